@@ -138,6 +138,8 @@ def gen_pattern(rng):
     p = gen_alt(rng, rng.choice([0, 1, 1, 2, 2, 3]))
     if rng.random() < 0.12:
         p = Pat('(?i)', '(?i)').cat(p)        # at the very start python reads it the same way
+    elif rng.random() < 0.10:
+        p = Pat('^', '^').cat(p).cat(Pat('$', '$'))   # explicitly anchored by the user
     return p
 
 
@@ -159,6 +161,14 @@ def gen_pathy_pattern(rng):
         t = '(' + '|'.join(rng.sample(names, 2)) + ')(/.*)?'
     else:
         t = '[^/]*/' + rng.choice(names) + '|' + rng.choice(names)
+    # users also anchor their patterns themselves (fully or on one side); whole-path semantics must not depend on it
+    a = rng.random()
+    if a < 0.12:
+        t = '^' + t + '$'
+    elif a < 0.17:
+        t = '^' + t
+    elif a < 0.22:
+        t = t + '$'
     return Pat(t, t, set(t) - META)
 
 
